@@ -116,8 +116,18 @@ def shape_application_tokens(kinds):
     return sh
 
 
+def shape_definition_in_body(B):
+    res = S.resolver(B)
+    v = B.int("v")
+    B.assume(v == 1)
+    put = lambda val: S.ast_macro(B, "put", [], [S.ast_data(B, "db", [S.expr_num(B, val)])])
+    ast = [put(0x11), S.ast_macro(B, "defs", [], [put(0x22)]), S.ast_apply(B, "defs", []), S.ast_apply(B, "put", [])]
+    return {"ast": B.list(ast), "resolver": res, "v": v, "selected_value": 0x22, "default_value": 0x11}
+
+
 def own_cases(E):
-    cs = []
+    cs = [Case("vf.contracts.c_codegen.unselected_definitions_contract", "a .macro (re)defined by the body of an applied macro stays defined after the application", shape_definition_in_body,
+               target=[G + "code_gen", G + "generate_macro", G + "generate_macro_application"])]
     for kinds in (("expr",), ("block",), ("expr", "block"), ("block", "expr"), ("expr", "block", "expr"), ("block", "block"), ("expr", "expr", "block")):
         cs.append(Case("vf.contracts.c_parser.macro_application_arguments_contract", "m(" + ", ".join(kinds) + ")", shape_application_tokens(kinds),
                        target=["a816.parse.parser_states.parse_macro_application", "a816.parse.parser_states.parse_expression_list", "a816.parse.parser_states.parse_expression_list_inner"]))
@@ -155,7 +165,8 @@ def cases(E):
     return cs
 
 
-OPTIONAL_CHECKS = {"macro_application_contract": ["parameter_bound_to_call_site_value"],
+OPTIONAL_CHECKS = {"unselected_definitions_contract": ["definition_in_an_unselected_block_has_no_effect", "definition_in_the_selected_block_takes_effect"],
+                   "macro_application_contract": ["parameter_bound_to_call_site_value"],
                    "restore_scope_export_contract": ["exported_same_value", "only_exports_added", "nothing_exported", "parent_symbols_kept"]}
 
 
